@@ -393,7 +393,7 @@ def answer (line : String) : String :=
         | .error .value => "ERR:V"
         | .error .overflow => "ERR:O"
         | .error _ => "ERR:?"
-      let t := Lex.pyStrip s
+      let t := XSD.wsCollapse s
       let f? : Option XSD.DateFields :=
         if kname == "date" then XSD.dateLex v11 t
         else if kname == "dateTime" then XSD.dateTimeLex v11 t
